@@ -308,3 +308,6 @@ PROPS["C09"]["assumptions"] = PROPS["C09"]["assumptions"] + ["lab half: for ever
 
 PROPS["C19"]["stages"] = [rt_stage, labchecks.raw_stage]
 PROPS["C19"]["assumptions"] = PROPS["C19"]["assumptions"] + ["lab half: raw requests (valid / with 1-2 corrupted path, query, header or auth arguments) against the generated endpoints of random services, blocking and async"]
+
+PROPS["C07"]["stages"] = [rt_stage, labchecks.services_stage]
+PROPS["C07"]["assumptions"] = PROPS["C07"]["assumptions"] + ["lab half: the URIs built by generated clients of random services (any parameter types, aliases, optionals, lists, sets) are split by an independent RFC 3986 splitter in Python"]
